@@ -303,7 +303,7 @@ class Fn:
             return ds[0]
         return None
 
-    def derived_from(self, local, max_steps=2000):
+    def derived_from(self, local, max_steps=2000, stop_calls=None):
         """A6: the set of (kind, payload) sources local is computed from, following assignments and
         call operands backwards within this body.  Returns (locals, calls, consts, fields)."""
         seen = set()
@@ -340,6 +340,8 @@ class Fn:
                 else:
                     c = payload
                     calls.append(c)
+                    if stop_calls is not None and stop_calls(c):
+                        continue
                     for op in c.args:
                         if op[0] == "k":
                             consts.append(op)
@@ -879,6 +881,26 @@ def blocks_dominate(fn, blocks, block):
     return block not in fn.reachable(0, avoid_blocks=blocks)
 
 
+def natural_loops(fn):
+    """[(header, body set)] from back edges u→h with h dominating u (nested loops are separate entries)"""
+    out = {}
+    dom = fn.dominators()
+    preds = fn.preds()
+    for u in dom:
+        for h in fn.succ(u):
+            if h in dom[u]:
+                body = {h}
+                work = [u]
+                while work:
+                    x = work.pop()
+                    if x in body:
+                        continue
+                    body.add(x)
+                    work.extend(preds[x])
+                out.setdefault(h, set()).update(body)
+    return sorted(out.items())
+
+
 def loops_of(fn):
     """natural loops as SCCs of the non-cleanup CFG, each with its exit edges"""
     res = []
@@ -967,3 +989,84 @@ def loop_carried(fn, loop_blocks, header):
         defs_in_loop |= ud[bb][1]
     defs_in_loop |= mut_borrowed
     return livein.get(header, set()) & defs_in_loop
+
+
+# ---------------------------------------------------------------------------------------------
+# path-insensitive value numbering of single-assignment temporaries
+
+def expr_key(fn, op, depth=0, _memo=None):
+    """A syntactic key of the value an operand holds: two operands with the same key were computed by the same expression
+    from the same inputs (calls are taken as functions of their arguments — use only for getters / constructors).
+    Locals with several definitions are their own key."""
+    memo = fn.__dict__.setdefault("_expr_keys", {})
+    if op[0] == "k":
+        return "k:%s" % (op[2],)
+    pl = op[1]
+    base = _local_key(fn, pl[0], memo, set())
+    for e in pl[1]:
+        if isinstance(e, (list, tuple)):
+            if e[0] == "f":
+                base += ".%s" % (e[4] if e[4] is not None else e[1])
+            else:
+                base += ".%s" % (e[0],)
+        elif e == "*":
+            pass
+        else:
+            base += ".%s" % (e,)
+    return base
+
+
+def _place_key(fn, pl, memo, busy):
+    base = _local_key(fn, pl[0], memo, busy)
+    for e in pl[1]:
+        if isinstance(e, (list, tuple)):
+            base += ".%s" % ((e[4] if e[4] is not None else e[1]) if e[0] == "f" else e[0])
+        elif e != "*":
+            base += ".%s" % (e,)
+    return base
+
+
+def _op_key(fn, op, memo, busy):
+    if op[0] == "k":
+        return "k:%s" % (op[2],)
+    return _place_key(fn, op[1], memo, busy)
+
+
+def _local_key(fn, l, memo, busy):
+    if l in memo:
+        return memo[l]
+    if l in busy:
+        return "_%d" % l
+    if 1 <= l <= fn.argc and not fn.defs().get(l):
+        memo[l] = "arg%d" % l
+        return memo[l]
+    d = fn.single_def(l)
+    if d is None:
+        memo[l] = "_%d" % l
+        return memo[l]
+    busy = busy | {l}
+    bb, kind, payload = d
+    k = "_%d" % l
+    if kind == "call":
+        c = payload
+        k = "%s(%s)" % (short(c.name), ",".join(_op_key(fn, a, memo, busy) for a in c.args))
+    else:
+        rv = payload[2]
+        if rv[0] == "use":
+            k = _op_key(fn, rv[1], memo, busy)
+        elif rv[0] == "cfd":
+            k = _place_key(fn, rv[1], memo, busy)
+        elif rv[0] == "ref":
+            k = _place_key(fn, rv[2], memo, busy)
+        elif rv[0] == "bin":
+            k = "(%s %s %s)" % (_op_key(fn, rv[2], memo, busy), rv[1].replace("WithOverflow", ""), _op_key(fn, rv[3], memo, busy))
+        elif rv[0] == "agg" and isinstance(rv[2], list):
+            kind_ = rv[1] if isinstance(rv[1], str) else ":".join(str(x) for x in rv[1][:2])
+            if not (isinstance(rv[1], list) and rv[1][0] == "closure"):
+                k = "%s[%s]" % (kind_, ",".join(_op_key(fn, a, memo, busy) for a in rv[2]))
+        elif rv[0] == "cast":
+            ops = [x for x in rv[1:] if isinstance(x, list) and x and x[0] in ("c", "m", "k")]
+            if ops:
+                k = _op_key(fn, ops[0], memo, busy)
+    memo[l] = k
+    return k
